@@ -332,8 +332,31 @@ class Fragment:
         self.text = self.text.replace(old, new)
         self.note(cls, c, detail or f"{old!r} -> {new!r}")
 
+    # --- names of locals of the real code -------------------------------------------------------
+    # Ghost text refers to a local variable of the code as @{logical}; bind() looks the actual identifier up in the
+    # extracted text, so that renaming a local (or adding a type annotation to its `let`) does not break the script.
+    def bind(self, logical, regex, group=1):
+        if not hasattr(self, 'names'):
+            self.names = {}
+        s = self._src()
+        for mm in re.compile(regex, re.S).finditer(self.text):
+            if s.mask[mm.start()]:
+                self.names[logical] = mm.group(group)
+                if mm.group(group) != logical:
+                    self.note('V-SPEC', 1, f"local `{mm.group(group)}` of the code is the `{logical}` of the ghost text")
+                return True
+        self.names[logical] = logical
+        self._lost(f'local {logical}: {regex}')
+        return False
+
+    def fmt(self, text):
+        names = getattr(self, 'names', {})
+        return re.sub(r'@\{(\w+)\}', lambda m: names.get(m.group(1), m.group(1)), text)
+
     def _find_anchor(self, anchor, nth=1):
         """(start, end) of the nth occurrence of anchor (str or compiled regex) or None."""
+        if isinstance(anchor, str):
+            anchor = self.fmt(anchor)
         if hasattr(anchor, 'finditer'):
             ms = list(anchor.finditer(self.text))
             if len(ms) < nth:
